@@ -56,6 +56,12 @@ func ZZ_C16_cancel() {
 	reached := make(chan struct{})
 	gate := make(chan struct{}) // never opened
 	var calls int
+	// phase2: after the cancelled call has returned (its resolver still blocked),
+	// a second request runs on the same schema; its first resolver opens the gate,
+	// so the abandoned execution carries on (and fails its remaining fields) while
+	// the second request is in flight
+	phase2 := false
+	lateFail := false
 	// errFirst: the cancellation becomes visible through Err() before Done() is
 	// signalled (the window every context implementation has between recording
 	// the error and closing the channel), here stretched over the rest of the call
@@ -63,6 +69,16 @@ func ZZ_C16_cancel() {
 	resolver := func(k int) FieldResolveFn {
 		return func(p ResolveParams) (interface{}, error) {
 			calls++
+			if phase2 {
+				if _, first := p.Context.(*zzCancelCtx); !first { // a resolver of the second request
+					if k == 1 {
+						close(gate)
+					}
+					return k, nil
+				}
+				// a resolver of the abandoned first request
+				return nil, zzWrapErr{"late failure of the abandoned request", context.Canceled}
+			}
 			if k == point && ownDeadline {
 				return nil, zzWrapErr{"backend call", context.DeadlineExceeded}
 			}
@@ -160,6 +176,19 @@ func ZZ_C16_cancel() {
 	}
 	if point == n+3 {
 		zzAssert(isCtxErr, "variable coercion blocked in user code: the call must return the context error")
+	}
+	if point >= 1 && point < n && !observe && !errFirst && !mutation && zzParam("PHASE2", 1) == 1 {
+		// the abandoned execution is parked in resolver `point`; a second request
+		// must be answered as if alone, whatever the abandoned one does meanwhile
+		phase2 = true
+		_ = lateFail
+		zzSched(true, zzParam("P", 1))
+		r2 := Do(Params{Schema: schema, RequestString: "{ f1 f2 f3 }"})
+		zzSched(false, 0)
+		m2, _ := r2.Data.(map[string]interface{})
+		zzAssert(len(r2.Errors) == 0 && len(m2) == 3 && m2["f1"] == 1 && m2["f2"] == 2 && m2["f3"] == 3, "a request served while an abandoned execution is still running is not answered as if alone")
+		zzQuiesce()
+		zzCover("phase2")
 	}
 	if point == n+2 {
 		zzAssert(full, "without cancellation the complete response is returned")
